@@ -13,13 +13,12 @@ def sources_hash():
 
 def run(props=None, timeout=7200):
     """Returns dict {ok, axioms, log_tail, secs, cached}."""
-    h = sources_hash()
+    h = sources_hash() + ("_" + "_".join(sorted(props)) if props else "")
     marker = os.path.join(core.WORK, "coqchk_%s.json" % h)
     import json
     if os.path.exists(marker):
         r = json.load(open(marker)); r["cached"] = True
         return r
-    ok, log, _ = core.coq_build()
     mods = []
     for f in sorted(glob.glob(os.path.join(core.COQ, "theories", "Props", "*.vo"))):
         m = "Shm.Props." + os.path.basename(f)[:-3]
@@ -29,11 +28,15 @@ def run(props=None, timeout=7200):
     # coqchk only reads the .vo files: do not hold the build lock (it runs for many minutes)
     rc, out, secs = core.sh(["timeout", str(timeout), "coqchk", "-silent", "-o", "-Q", "theories", "Shm"] + mods,
                             cwd=core.COQ, timeout=timeout + 60)
-    axioms = re.findall(r"^\s*\*?\s*([A-Za-z_][\w.']*)\s*:", out.split("Axioms:")[-1], re.M) if "Axioms:" in out else []
+    axioms = []
+    m = re.search(r"\* Axioms:\s*(.*?)\n\* ", out, re.S)
+    if m and "<none>" not in m.group(1):
+        axioms = [x.strip() for x in m.group(1).splitlines() if x.strip()]
     r = {"ok": rc == 0, "modules": mods, "axioms": axioms, "log_tail": out[-3000:], "secs": round(time.time() - t0, 1), "cached": False}
     if rc == 0:
         for f in glob.glob(os.path.join(core.WORK, "coqchk_*.json")):
-            os.unlink(f)
+            if time.time() - os.path.getmtime(f) > 86400:
+                os.unlink(f)
         json.dump(r, open(marker, "w"))
     return r
 
